@@ -33,10 +33,16 @@ def gen(lab, seed, tier, tag):
 def validate(prop, trace_module, verdict, events, path, label, cov, clause_filter=None, harness_clauses=HARNESS_CLAUSES, deque=True):
     res = core.tlc_trace(trace_module, path, name=f'{prop}_{label}', deque=deque)
     hb = [b for b in res['bad'] if set(b['clauses']) & harness_clauses]
+    n_viol = core.judge_trace(verdict, res, events, prop_filter=clause_filter, label=label)
     if hb:
         b = hb[0]
-        raise ToolError(f'{label}: harness/projection clause failed {b} : {json.dumps(events[b["ev"]-1])[:400]}')
-    core.judge_trace(verdict, res, events, prop_filter=clause_filter, label=label)
+        msg = f'{label}: harness/projection clause failed {b} : {json.dumps(events[b["ev"]-1])[:400]}'
+        # a change to the code under test can break the recording's own invariants as well as the property: if this family also
+        # produced property violations, those are reported (exit 1) and the harness failure becomes a note; otherwise it is a
+        # tool error (exit 2)
+        if n_viol == 0:
+            raise ToolError(msg)
+        verdict.notes.append(msg)
     cov['traces_validated_against_impl'] += res['stats'].get('runs', 0)
     cov['events_validated'] = cov.get('events_validated', 0) + res['total']
     cov.setdefault('trace_stats', {})[label] = res['stats']
